@@ -11,7 +11,7 @@ func init() {
 			Assumptions: []string{"user code reachable through package interfaces is deterministic", "the date printed in the man page is an input (clock or SOURCE_DATE_EPOCH)"},
 		},
 		Run:      runC15,
-		Controls: []string{"ord-maprange-escape", "ord-mapkeys-concat", "ord-firstwins", "ord-clean"},
+		Controls: []string{"ord-maprange-escape", "ord-mapkeys-concat", "ord-firstwins", "ord-clean", "ord-builder-loop", "ord-builder-callee"},
 	})
 }
 
